@@ -132,7 +132,7 @@ def run(ctx):
         n = edges_of(r, path)
         if n == 0:
             raise lib.ToolError("no edges emitted by %s" % cfg)
-        res = replay_edges(ctx, bindir, path, sqlite_every=25)
+        res = replay_edges(ctx, bindir, path, sqlite_every=40)
         if res["edges"] != n:
             raise lib.ToolError("replay consumed %d of %d edges" % (res["edges"], n))
         lib.log("[replay] bfs %s: %d edges, %d bad, steps %s" % (name, n, res["bad_edges"], res["by_step"]))
